@@ -45,7 +45,13 @@ on the maximal cliques only, `g = buildOn (closure cliques) false true`, `Hyp`, 
 are `1` on cliques and `−multiplicity` on separators); (b) consistency along *edges* (item 1) must be extended to every
 pair clique ⊇ separator — in the pruned (`minimal`) graph this needs the common-ancestor classes of `minEdges`
 (`DS.find` = connected components), which is not available; (c) a leaf-peeling induction over the RIP order with
-`sumOver` over unions of attribute lists (the two-clique proof is its base step).  Also open: the saturated branch
+`sumOver` over unions of attribute lists (the two-clique proof is its base step).
+**Chains** `C₁ – … – Cₙ` with pairwise disjoint separators (two-level region graph) are also open.  Note that there
+`D` is empty but `N` is **not**: `N[Cᵢ,Sᵢ] = {(Cᵢ₋₁,Sᵢ₋₁)}` (`exChain2_N` below), so a fixed point is the junction-tree
+(Shafer–Shenoy) recursion `m[Cᵢ→Sᵢ] = log Σ_{Cᵢ∖Sᵢ} exp(θᵢ + m[Cᵢ₋₁→Sᵢ₋₁]) − c`.  Planned route: the invariant
+`Σ_{U∖S} exp(Θ) = K·exp(m[C→S])` for the attributes `U` and log-potential `Θ` behind a message (base = the edge equation
+with `N = D = ∅`, step = the edge equation with `N = {one message}` + `sumOver_split` over `dom.attrs.filter`), applied
+from both ends, and `two_clique_claim` generalised to a belief with two incoming messages.  Also open: the saturated branch
 (`minimal = false`), whose `N`/`D`/`B` sets are defined differently (`msgSetsSat`).
 -/
 namespace PGM.C16F
@@ -333,6 +339,11 @@ def exChain : RG.Graph :=
   RG.buildOn [["A", "B", "C"], ["B", "C", "D"], ["C", "D", "E"], ["B", "C"], ["C", "D"], ["C"]] false true
 theorem exChain_shape : Shape exChain := by decide
 theorem exChain_nonflat : ∃ e ∈ exChain.messageOrder, look exChain.N e ≠ [] ∧ look exChain.D e ≠ [] := by decide
+
+/-- the chain `AB – BC – CD` with disjoint separators `B`, `C` (two levels): `D` is empty, `N` is not -/
+def exChain2 : RG.Graph := RG.buildOn [["A", "B"], ["B", "C"], ["C", "D"], ["B"], ["C"]] false true
+theorem exChain2_N : look exChain2.N (["B", "C"], ["C"]) = [(["A", "B"], ["B"])] ∧
+    ∀ e ∈ exChain2.messageOrder, look exChain2.D e = [] := by decide
 
 /-- for **every** family of potentials laid out on the regions of `A-B / B-C / B` there is a message state
 satisfying all hypotheses of the theorems above (`Hyp` and `SemFixed`) -/
